@@ -339,8 +339,73 @@ def check(run: Run) -> None:
                             "cycle changes the value while added/removed/modified do not report it", loc=fa.loc(rev[0]))
         run.sites(n, 2, "revive branches")
 
+    with run.obligation("C05.i", "K2", "the mutation views of sets and dictionaries never mark the series modified at a new time without a storage operation that rolled the "
+                        "delta window for that time (touch / insert / remove ... taking current_mutation_time()): otherwise the tick re-reports the added / removed "
+                        "elements of an earlier cycle (clear() of an already-empty collection is the boundary case)"):
+        n_marks = 0
+        for rel, cls in (("src/hgraph/types/time_series/ts_data/set_view.cpp", "TSSDataMutationView"), ("src/hgraph/types/time_series/ts_data/dict_view.cpp", "TSDDataMutationView")):
+            fi_ = run.tree.file(rel)
+            for fd_ in fi_.funcs:
+                if fd_.body is None or fd_.cls != cls and not fd_.qual.startswith(f"hgraph::{cls}::") and f"{cls}::" not in fd_.qual:
+                    continue
+                if "mark_modified" not in fi_.text(fd_.body[0], fd_.body[1]):
+                    continue
+                fa_ = R.parse(run, fd_)
+                fl = R.flow(run, fa_)
+                cn_ = R.Canon()
+                rolls = lambda n, cn_=cn_: n.kind == "call" and n.ast is not None and isinstance(n.ast, C.Call) and R.callee_name(n.ast).endswith("_impl") and \
+                    any(cn_(a) == "current_mutation_time()" for a in n.ast.args)
+                marks = lambda n: n.kind == "call" and n.name == "mark_modified"
+                if not fl.nodes_of(marks):
+                    continue
+                n_marks += 1
+                run.count(1, "C05.i")
+                w = fl.must_precede(rolls, marks)
+                if w is not None:
+                    run.finding("C05.i", f"{cls}::{fd_.name}:modified-without-window-roll", f"{cls}::{fd_.name} can mark the series modified on a path on which no storage "
+                                f"operation rolled the delta window at the mutation time: {fl.path_text(w)}", loc=fl.cfg.describe(w[-1][0]))
+        run.sites(n_marks, 6, "mutation-view methods that mark the series modified")
+
+    with run.obligation("C05.j", "K2", "dynamic TSL: a child enters the per-cycle modified-index list (record_child_modified - not idempotent) only when its own write reported a "
+                        "NEW modification this cycle and the child's tracking recorded it: a child that already ticked in this cycle is skipped, never registered twice "
+                        "(a second registration re-heads the list and drops the earlier children from delta / modified_indices)"):
+        DYN = "src/hgraph/types/metadata/ts_data_dynamic_list_ops.cpp"
+        fi_ = run.tree.file(DYN)
+        n_reg = 0
+        for fd_ in fi_.funcs:
+            if fd_.body is None or fd_.name == "record_child_modified" or fd_.name == "dynamic_record_child_modified":
+                continue
+            if "record_child_modified" not in fi_.text(fd_.body[0], fd_.body[1]):
+                continue
+            fa_ = R.parse(run, fd_)
+            lambdas = [n_ for n_ in fa_.body.walk() if isinstance(n_, C.Lambda) and R.calls(n_.body, "record_child_modified")]
+            units = [(f"{fd_.name}:lambda", C.FuncAST(fa_.fd, fa_.fi, l_.body, [], [])) for l_ in lambdas] or [(fd_.name, fa_)]
+            for uname, ufa in units:
+                fl = R.flow(run, ufa)
+                reg = lambda n: n.kind == "call" and n.name == "record_child_modified"
+                if not fl.nodes_of(reg):
+                    continue
+                n_reg += 1
+                run.count(1, "C05.j")
+                is_write = lambda n: n.kind == "cond" and re.search(r"\b(copy_value_from_impl|move_value_from_impl|from_python_impl|apply_delta_impl)\(", n.label) is not None
+                is_rec = lambda n: n.kind == "cond" and "record_modified(" in n.label
+                # a path to the registration that does not take the TRUE edge of the child's write test ...
+                w = fl.reach([fl.start], targets=reg, after_source=False, edge_skip=lambda n, lab: is_write(n) and lab == "T")
+                if w is not None:
+                    run.finding("C05.j", f"{uname}:registered-without-new-write", f"{fd_.qual}: a child reaches record_child_modified although its write did not report a new "
+                                f"modification this cycle: {fl.path_text(w)}", loc=fl.cfg.describe(w[-1][0]))
+                    continue
+                # ... or that does not take the TRUE edge of the tracking record
+                w = fl.reach([fl.start], targets=reg, after_source=False, edge_skip=lambda n, lab: is_rec(n) and lab == "T")
+                if w is not None:
+                    run.finding("C05.j", f"{uname}:registered-without-tracking-record", f"{fd_.qual}: a child reaches record_child_modified although its tracking did not newly "
+                                f"record the modification: {fl.path_text(w)}", loc=fl.cfg.describe(w[-1][0]))
+        run.sites(n_reg, 3, "dynamic-list child registrations")
+
 
 VARIANTS = [
+    {"id": "j-move-registers-already-ticked-child", "expect": "C05.j", "edits": [{"file": "src/hgraph/types/metadata/ts_data_dynamic_list_ops.cpp", "find": "                    if (!ops.move_value_from_impl(ops.context, data, std::move(source_child), modified_time))\n                    {\n                        continue;\n                    }\n                    auto *tracking = ops.mutable_tracking_impl(ops.context, data);\n                    if (tracking == nullptr) { throw std::logic_error(\"dynamic TSL child has no tracking record\"); }\n                    if (!tracking->record_modified(modified_time))\n                    {\n                        throw std::logic_error(\"dynamic TSL child reported a duplicate modification\");\n                    }", "replace": "                    const bool child_first =\n                        ops.move_value_from_impl(ops.context, data, std::move(source_child), modified_time);\n                    auto *tracking = ops.mutable_tracking_impl(ops.context, data);\n                    if (tracking == nullptr) { throw std::logic_error(\"dynamic TSL child has no tracking record\"); }\n                    if (tracking->record_modified(modified_time) != child_first)\n                    {\n                        throw std::logic_error(\"dynamic TSL child reported an inconsistent modification\");\n                    }"}]},
+    {"id": "i-set-clear-skips-window-roll", "expect": "C05.i", "edits": [{"file": "src/hgraph/types/time_series/ts_data/set_view.cpp", "find": "        const auto &ops           = set_ops();\n        const bool  newly_touched = ops.touch_impl(ops.context, mutation_.mutable_data(), current_mutation_time());\n        for (const auto &key : keys) { static_cast<void>(remove(key.view())); }", "replace": "        const bool newly_touched = !mutation_.modified();\n        for (const auto &key : keys) { static_cast<void>(remove(key.view())); }"}]},
     {"id": "b-touch-does-not-roll-window", "expect": "C05.b", "edits": [{"file": SLOT, "find": "            [[nodiscard]] bool touch(DateTime modified_time)\n            {\n                validate_mutation_time(modified_time);\n                prepare_delta(modified_time);\n                return tracking_.last_modified_time != modified_time;", "replace": "            [[nodiscard]] bool touch(DateTime modified_time)\n            {\n                validate_mutation_time(modified_time);\n                ensure_delta_capacity();\n                return tracking_.last_modified_time != modified_time;"}]},
     {"id": "g-tsd-unpublish-only-when-removal-recorded", "expect": "C05.g", "edits": [{"file": SLOT, "find": "                    if (slot_added(slot)) { added_.reset(slot); }\n                    else { removed_.set(slot); }\n                    value_published_.reset(slot);\n                }\n                modified_.reset(slot);\n                (void)key_set_tracking_.record_modified(modified_time);\n                return mutation_result(slot);\n            }\n\n            [[nodiscard]] SlotTSDataMutationResult remove_slot", "replace": "                    if (slot_added(slot)) { added_.reset(slot); }\n                    else { removed_.set(slot); value_published_.reset(slot); }\n                }\n                modified_.reset(slot);\n                (void)key_set_tracking_.record_modified(modified_time);\n                return mutation_result(slot);\n            }\n\n            [[nodiscard]] SlotTSDataMutationResult remove_slot"}]},
     {"id": "g-tsd-keyset-stamped-only-for-published", "expect": "C05.g", "edits": [{"file": SLOT, "find": "                    value_published_.reset(slot);\n                }\n                modified_.reset(slot);\n                (void)key_set_tracking_.record_modified(modified_time);\n                return mutation_result(slot);\n            }\n\n            [[nodiscard]] SlotTSDataMutationResult remove_slot", "replace": "                    value_published_.reset(slot);\n                    (void)key_set_tracking_.record_modified(modified_time);\n                }\n                modified_.reset(slot);\n                return mutation_result(slot);\n            }\n\n            [[nodiscard]] SlotTSDataMutationResult remove_slot"}]},
